@@ -71,14 +71,38 @@ def gen_case(rng, tier="quick"):
                           [3, 4, 1])])
     ops.append(["compute"])
     ops.append(["get_state"])
-    return {"model": m, "ops": ops}
+    case = {"model": m, "ops": ops}
+    if rng.random() < 0.5:
+        # other Gibbs computations earlier in the same process: same bath
+        # with another number of steps, another temperature, another
+        # coupling strength (process-wide memo state must not leak)
+        pre = []
+        for _ in range(rng.randrange(1, 3)):
+            v = _pick(rng, ["n_steps", "temperature", "alpha", "coupling"])
+            if v == "n_steps":
+                pre.append({"n_steps": _pick(
+                    rng, [x for x in range(2, 10) if x != m["n_steps"]])})
+            elif v == "temperature":
+                pre.append({"temperature": _r(rng, 0.4, 3.0)})
+            elif v == "alpha":
+                pre.append({"alpha": _r(rng, 0.05, 0.6)})
+            else:
+                pre.append({"coupling": [_r(rng, -1.0, 1.0)
+                                         for _ in range(d)]})
+        case["prelude"] = pre
+    return case
 
 
 def shrink(case):
     out = []
     ops = case["ops"]
+    if case.get("prelude"):
+        out.append({"model": case["model"], "ops": ops,
+                    "prelude": case["prelude"][:-1]})
+    keep = {"prelude": case["prelude"]} if case.get("prelude") else {}
     for i in range(len(ops)):
-        out.append({"model": case["model"], "ops": ops[:i] + ops[i + 1:]})
+        out.append(dict({"model": case["model"],
+                         "ops": ops[:i] + ops[i + 1:]}, **keep))
     m = case["model"]
     if m["n_steps"] > 2:
         out.append({"model": dict(m, n_steps=m["n_steps"] - 1), "ops": ops})
@@ -171,6 +195,18 @@ def run_case(case, dec):
 
     log.ev("model", m["kind"], m["d"], m["n_steps"], m["cutoff_type"],
            int(bool(m.get("complex"))), m["hseed"])
+    for variant in case.get("prelude") or []:
+        pm = dict(m, **variant)
+        if pm["kind"] == "zero" and not pm["alpha"]:
+            pm["alpha"] = 0.0
+        try:
+            other, _ = build(pm)
+            other.compute(progress_type="silent")
+            other.get_state()
+            stats["prelude_computations"] = stats.get(
+                "prelude_computations", 0) + 1
+        except Exception:  # noqa: BLE001 - the prelude is only a disturbance
+            pass
     obj, corr = build(m)
     want, tol = exact_state(m, corr)
     computed = False
